@@ -93,7 +93,11 @@ def run(ctx) -> Result:
     n = 160 if not ctx.thorough else 3000
     for i in range(n):
         cfg = pipecheck.CONFIGS[i % len(pipecheck.CONFIGS)]
-        if i % 8 == 6:
+        if i % 8 == 2:
+            # the dispatcher falls behind: the handler blocks while bursts of file operations (create/delete/create ...) are
+            # read and translated; everything queued meanwhile is delivered at the end and must still replay to the tree
+            hist = [["hold"]] + pipe.gen_history_filechurn(rng, n_ops=rng.randint(4, 12)) + [["release"]]
+        elif i % 8 == 6:
             hist = pipe.gen_history_arrivals(rng, n=rng.randint(1, 3))
         elif i % 4 == 3:
             hist = pipe.gen_history_renames(rng, n_renames=rng.randint(2, 5))
